@@ -42,13 +42,18 @@ def run(ctx):
     # ---- how the two layouts are dispatched: a private trait object (`&dyn ElfSectionInner`, the reference form) or a private
     # enum of two references; the obligations are the same (which bytes each decoding step reads, per layout), stated on whichever
     # form is there
-    en = F.adts.get("multiboot2::elf_sections::ElfSectionInner<'_>") or F.adts.get("multiboot2::elf_sections::ElfSectionInner")
+    from .. import roles
+    en = roles.elf_enum(F)
     enum_rep = None
-    if en and en.get("kind") == "enum" and len(en.get("variants", [])) == 2:
+    if en is not None:
         vs = en["variants"]
-        fts = [v.get("fields", []) for v in vs]
-        if all(len(x) == 1 for x in fts) and {fts[0][0], fts[1][0]} == {"&" + I32, "&" + I64}:
-            enum_rep = {"adt": en, "by_layout": {I32: [v for v in vs if v["fields"][0] == "&" + I32][0], I64: [v for v in vs if v["fields"][0] == "&" + I64][0]}}
+        enum_rep = {"adt": en, "name": en.get("name") or en["path"].split("::")[-1],
+                    "by_layout": {I32: [v for v in vs if v["fields"][0] == "&" + I32][0], I64: [v for v in vs if v["fields"][0] == "&" + I64][0]}}
+    # the decoder (`get` in the reference form) is found by its role: the one `&self` method of ElfSection answering that view
+    get_key = roles.elf_decoder(F)
+    get_name = F.insts[get_key]["name"] if get_key else "get"
+    if enum_rep is not None:
+        enum_rep["get_key"] = get_key or (SEC + "::<'_>::get")
     # ---- E4 layouts
     for (a, spec, nm) in ((i32, S.ELF32_SHDR, "ELF32"), (i64, S.ELF64_SHDR, "ELF64")):
         got = [(f["off"], f["size"]) for f in a["fields"]]
@@ -210,7 +215,7 @@ def run(ctx):
         ctx.check(none_ok, "E2", "exhausted", "None is returned exactly when remaining_sections == 0 at the loop head", B.site(), how="loop guard", why="guard not recognised")
     # ---- E3 get() / string_table()
     for (fname, ptr_field) in (("get", "inner"), ("string_table", "string_section")):
-        ins = F.find(impl_self_name="ElfSection", name=fname, impl_trait=None)
+        ins = F.find(impl_self_name="ElfSection", name=(get_name if fname == "get" else fname), impl_trait=None)
         if len(ins) != 1:
             ctx.fail("ANCHOR", fname, "ElfSection::%s exists" % fname, "", "%d" % len(ins))
             continue
@@ -373,7 +378,7 @@ def _spec_field(a, spec, fname):
 def enum_method(ctx, F, enum_rep, a, spec, nm, meth, fname):
     """E4 for the enum form: the enum's decoding method `meth`, on the variant holding this layout, reads this layout's field"""
     hs = [h for k, h in list(F.helper_insts.items()) + list(F.insts.items())
-          if h.get("impl_self_name") == "ElfSectionInner" and not h.get("impl_trait") and h.get("name") == meth]
+          if h.get("impl_self_name") == enum_rep["name"] and not h.get("impl_trait") and h.get("name") == meth]
     if len(hs) != 1:
         ctx.fail("ANCHOR", "%s::%s" % (nm, meth), "decoding method exists", "", "%d" % len(hs))
         return
@@ -406,7 +411,7 @@ def enum_accessor(ctx, F, enum_rep, inst, a_name, meth, layouts, wrapper=None):
     try:
         it_, pieces, _ = CL.classify(F, inst, domain=((0, 1),))
         subj = N(it_)
-        getc = ("call", SEC + "::<'_>::get", (arg(1),))
+        getc = ("call", enum_rep["get_key"], (arg(1),))
         ok = subj == ("discr", getc)
         seen = set()
         for (iv, val, bb) in pieces:
